@@ -196,6 +196,17 @@ def units(tier):
             for uops in _product([UN_OPS] * nu):
                 idx += 1
                 us.append(dict(h="prec", shape=sh, bops=bops, uops=uops, rot=idx, nlen=1 if q else 2, cost=nb + nu))
+    # repeated equal literals: every operand an exponent literal, the first one different from the
+    # (equal) others; the symbolic operand rotates
+    for sh in shapes(2):
+        nb, nu = count_ops(sh)
+        if nu != 0 or nb not in ((2,) if q else (2, 3)):
+            continue
+        for bops in _product([REP] * nb):
+            idx += 1
+            if nb == 3 and idx % 4:
+                continue
+            us.append(dict(h="prec", shape=sh, bops=bops, uops=[], rot=idx, nlen=1, leaves="reals", cost=nb))
     if not q:
         # depth 3 over representative operators of every level
         for sh in shapes(3):
@@ -320,7 +331,10 @@ def prec(ctx):
     leafvals = {}
     symslot = (p["rot"] // len(LEAF_KINDS)) % len(slots)
     for s in slots:
-        leafvals[s[2]] = make_leaf(ctx, s[1], s[2], p["nlen"], s[2] == symslot)
+        if p.get("leaves") == "reals":
+            leafvals[s[2]] = make_leaf(ctx, "real_exp", s[2], 1, True) if s[2] == symslot else ("1.0e-3" if s[2] == 0 else "2.0e-3")
+        else:
+            leafvals[s[2]] = make_leaf(ctx, s[1], s[2], p["nlen"], s[2] == symslot)
     ops = {}
     k = 0
     for op in list(p["bops"]) + list(p["uops"]):
